@@ -49,7 +49,7 @@ def r1_skip_dominates(ctx):
             st = par
         t = norm(guard.test) if guard is not None else None
         ok = t in ("not target.branching.false_case() or node.keyword == 'case'", "node.keyword == 'case' or not target.branching.false_case()")
-        ctx.check(ok, DIP, "DIP.parse", f"{norm(c.func)}(...) runs only for case lines or when no enclosing clause is unselected", detail=t,
+        ctx.form(ok, DIP, "DIP.parse", f"{norm(c.func)}(...) runs only for case lines or when no enclosing clause is unselected", detail=t,
                   expected="not target.branching.false_case() or node.keyword == 'case'")
     # the chain that registers values: ... elif false_case(): continue  else: <effects>
     chains = [s for s in lp.body if isinstance(s, ast.If) and norm(s.test) == "node.keyword in self.nodes_notypes"]
@@ -75,16 +75,16 @@ def r1_skip_dominates(ctx):
         for _ in range(skip[0]):
             cur = cur.orelse[0]
         ok = [norm(s) for s in cur.body] == ["continue"]
-    ctx.check(ok, DIP, "DIP.parse", "a value line in an unselected clause is skipped before it is set, merged or appended", detail=order,
+    ctx.form(ok, DIP, "DIP.parse", "a value line in an unselected clause is skipped before it is set, merged or appended", detail=order,
               expected="... elif target.branching.false_case(): continue; else: <set_value / modify_value / append>")
     eff2 = [norm(c.func) for s in (final or []) for c in ast.walk(s) if isinstance(c, ast.Call) and norm(c.func) in
             ("node.set_value", "target.nodes.append") or (isinstance(c, ast.Call) and norm(c.func).endswith(".modify_value"))]
-    ctx.check(len(eff2) >= 3, DIP, "DIP.parse", "setting, modifying and appending happen only in the final (guarded) branch", detail=eff2)
+    ctx.form(len(eff2) >= 3, DIP, "DIP.parse", "setting, modifying and appending happen only in the final (guarded) branch", detail=eff2)
     outside = [norm(c) for c in ast.walk(lp) if isinstance(c, ast.Call) and (norm(c.func) in ("node.set_value", "target.nodes.append") or norm(c.func).endswith(".modify_value"))
                and not any(c in list(ast.walk(s)) for s in (final or []))]
-    ctx.check(not outside, DIP, "DIP.parse", "no value effect outside the guarded branch", detail=outside or None)
+    ctx.form(not outside, DIP, "DIP.parse", "no value effect outside the guarded branch", detail=outside or None)
     ci = next((i for i, t in enumerate(order) if t == "node.keyword == 'case'"), None)
-    ctx.check(ci is not None and (not skip or ci < skip[0]), DIP, "DIP.parse", "clause lines are always handed to the clause ladder, even inside unselected clauses")
+    ctx.form(ci is not None and (not skip or ci < skip[0]), DIP, "DIP.parse", "clause lines are always handed to the clause ladder, even inside unselected clauses")
 
 
 class BlockSkip(Handler):
@@ -403,7 +403,7 @@ def r4_close_before_skip(ctx):
                           detail={"excluded_from_closing": sorted(sc), "excluded_from_hierarchy": sorted(sh)},
                           expected="the same exclusion list (a group header de-indents like any other node)")
     arg2 = norm(c.args[1]) if len(c.args) > 1 else None
-    ctx.check(arg2 == "node.keyword == 'case'", DIP, "DIP.parse", "a clause keyword at the clause indent switches instead of closing", detail=arg2)
+    ctx.form(arg2 == "node.keyword == 'case'", DIP, "DIP.parse", "a clause keyword at the clause indent switches instead of closing", detail=arg2)
     # closing condition table
     f = ctx.fn(BR, "BranchingList.close_by_indent")
     wl = [s for s in K.body_nodoc(f) if isinstance(s, ast.While)]
